@@ -35,6 +35,11 @@ class Observer:
         for i, t in enumerate(objs):
             prob = P.metadata_problem(t)
             if prob:
+                if i >= len(self.vals):      # keep the bookkeeping aligned with the object list
+                    self.vals.append(np.zeros(0, dtype=complex))
+                    self.shapes.append(None)
+                    self.vids.append(self.next_vid)
+                    self.next_vid += 1
                 out.append(dict(ok=False, rd=[], cd=[], r0=0, rN=0, rk=[], lo=[], ro=[], vid=0, isint=False, v=[]))
                 continue
             val = P.contract(t.cores).reshape(-1).astype(complex)
